@@ -4,6 +4,7 @@ import (
 	"encoding/json"
 	"errors"
 	"fmt"
+	"os"
 	"strings"
 	"testing"
 	"time"
@@ -180,9 +181,10 @@ func genLifeCase(t *rapid.T) *lifeCase {
 }
 
 const (
-	lifeQuiesceMs   = 150_000
-	lifeSettleMs    = 12_000
-	lifeSettleMaxMs = 90_000 // only while goroutines of finished queries are still moving
+	lifeQuiesceMs    = 150_000
+	lifeQuiesceMaxMs = 600_000 // only while queries still make progress (loaded machine)
+	lifeSettleMs     = 12_000
+	lifeSettleMaxMs  = 90_000 // only while goroutines of finished queries are still moving
 )
 
 // timedOutOutcome: the query was ended by the server's own query timeout.
@@ -211,7 +213,7 @@ func checkLife(cs *lifeCase, o *pt.Obs) error {
 		}
 	}
 	req := scriptReq{Index: execIndex, Start: lo, End: hi, Queries: queries, Actions: cs.Actions, QuiesceMs: lifeQuiesceMs, SettleMs: lifeSettleMs,
-		SettleMaxMs: lifeSettleMaxMs, ServerTimeoutSecs: cs.ServerTimeoutSecs}
+		QuiesceMaxMs: lifeQuiesceMaxMs, SettleMaxMs: lifeSettleMaxMs, ServerTimeoutSecs: cs.ServerTimeoutSecs}
 	body, _ := json.Marshal(&req)
 	for _, a := range cs.Actions {
 		o.Class("action_" + a.Kind)
@@ -219,7 +221,7 @@ func checkLife(cs *lifeCase, o *pt.Obs) error {
 			o.Class("burst_beyond_limit")
 		}
 	}
-	opts := sut.Options{Timeout: time.Duration(lifeQuiesceMs+lifeSettleMaxMs+60_000) * time.Millisecond,
+	opts := sut.Options{Timeout: time.Duration(lifeQuiesceMaxMs+lifeSettleMaxMs+60_000) * time.Millisecond,
 		Env: map[string]string{"GOMAXPROCS": fmt.Sprint(cs.MaxProcs)}}
 	if cs.ServerTimeoutSecs > 0 {
 		o.Class(fmt.Sprintf("server_timeout_%ds", cs.ServerTimeoutSecs))
@@ -295,6 +297,15 @@ func checkLife(cs *lifeCase, o *pt.Obs) error {
 				o.NonTrivial()
 			}
 		}
+		if p := os.Getenv("C17_LINGER_LOG"); p != "" && rep.SettleWaitedMs > 1000 {
+			// triage aid (off by default): which sequences leave goroutines winding down for > 1 s
+			if f, err := os.OpenFile(p, os.O_APPEND|os.O_CREATE|os.O_WRONLY, 0o644); err == nil {
+				cj, _ := json.Marshal(cs)
+				rj, _ := json.Marshal(&rep)
+				fmt.Fprintf(f, "{\"case\":%s,\"report\":%s}\n", cj, rj)
+				f.Close()
+			}
+		}
 		o.Max("settle_waited_ms", rep.SettleWaitedMs)
 		for fn, ms := range rep.Lingered {
 			// which goroutines of finished queries were still winding down at the first dumps, and for how long
@@ -313,6 +324,11 @@ func checkLife(cs *lifeCase, o *pt.Obs) error {
 			return fmt.Errorf("admission limit exceeded: %d queries listed as running at one sample, MAX_RUNNING_QUERIES=%d", rep.MaxActive, rep.Limit)
 		}
 		// 2. every started query ends
+		if rep.NotReturned > 0 && !rep.Stuck {
+			// not a verdict: the queries (or their goroutines) were still moving when the time budget ended
+			return pt.Inconclusivef("%d of %d started queries had not returned after %d s but were still making progress (time budget; loaded machine?)",
+				rep.NotReturned, len(rep.Started), rep.QuiesceWaitedMs/1000)
+		}
 		if rep.NotReturned > 0 {
 			var sb strings.Builder
 			n := 0
@@ -323,10 +339,15 @@ func checkLife(cs *lifeCase, o *pt.Obs) error {
 					n++
 				}
 			}
-			return fmt.Errorf("%d of %d started queries did not return within %d s:\n%sfinal tables: active=%d waiting=%d; goroutines:\n%s",
-				rep.NotReturned, len(rep.Started), lifeQuiesceMs/1000, sb.String(), rep.Final.Active, rep.Final.Waiting, rep.GoroutineDump)
+			return fmt.Errorf("%d of %d started queries did not return within %d s and nothing of any query has moved during the last %d s:\n%sfinal tables: active=%d waiting=%d; goroutines:\n%s",
+				rep.NotReturned, len(rep.Started), rep.QuiesceWaitedMs/1000, quiesceStuckMs/1000, sb.String(), rep.Final.Active, rep.Final.Waiting, rep.GoroutineDump)
 		}
 		for _, sq := range rep.Started {
+			if !terminalOutcome(sq.Outcome) && (strings.HasPrefix(sq.Outcome, "ws:no-terminal-state-in-time") || strings.HasPrefix(sq.Outcome, "ws:dial-error") ||
+				(strings.HasPrefix(sq.Outcome, "ws:closed-without-terminal-state:") && strings.Contains(sq.Outcome, "timeout"))) {
+				// the client side of the harness gave up (read deadline / handshake timeout): not an observation of the server
+				return pt.Inconclusivef("websocket client of query #%d gave up: %s", sq.Seq, sq.Outcome)
+			}
 			if !terminalOutcome(sq.Outcome) {
 				return fmt.Errorf("query #%d (mode=%s, %q) ended without a terminal state: outcome=%q states=%s", sq.Seq, sq.Mode,
 					cs.Queries[sq.Query%len(cs.Queries)], sq.Outcome, sq.States)
@@ -345,7 +366,9 @@ func checkLife(cs *lifeCase, o *pt.Obs) error {
 		// 5. exact: no goroutine started since the baseline dump (taken before the first query) has
 		// a frame in a per-query package. A goroutine counts as staying when it is in a waiting state
 		// with an unchanged stack for >= 3 s at the end of the settle period (>= 12 s after the last
-		// query returned); goroutines that still move after 90 s are residual work: inconclusive.
+		// query returned). While any goroutine of a finished query still moves (residual work) the
+		// script waits up to 90 s; if one still moves then, the case is inconclusive as a whole (a
+		// waiting goroutine may depend on a moving one).
 		if len(rep.Leaked) > 0 {
 			var sb strings.Builder
 			staying := 0
@@ -357,7 +380,7 @@ func checkLife(cs *lifeCase, o *pt.Obs) error {
 					}
 				}
 			}
-			if staying == 0 {
+			if staying == 0 || rep.LeakedMoving > 0 {
 				lg := rep.Leaked[0]
 				return pt.Inconclusivef("%d goroutine(s) of finished queries are still moving %d s after the last query returned (residual work, e.g. [%s] %s)",
 					len(rep.Leaked), rep.SettleWaitedMs/1000, lg.State, lg.Func)
